@@ -20,7 +20,7 @@ import (
 type Op struct {
 	K    string   `json:"op"` // set update delete flush purge m2c adv
 	Key  string   `json:"key,omitempty"`
-	Dur  string   `json:"dur,omitempty"` // default none short long
+	Dur  string   `json:"dur,omitempty"` // default none short long tiny
 	Bad  bool     `json:"empty_value,omitempty"`
 	Adv  string   `json:"adv,omitempty"` // small | before | after | long  (relative to the earliest pending deadline)
 	Keys []string `json:"keys,omitempty"`
@@ -46,6 +46,8 @@ func durOf(name string) time.Duration {
 		return short
 	case "long":
 		return long
+	case "tiny":
+		return time.Nanosecond // smallest positive duration: the entry is expired 2 ns later
 	}
 	return cache.DefaultExpiration
 }
@@ -551,6 +553,9 @@ func TestProp(t *testing.T) {
 			} else {
 				others = append(others, o)
 			}
+		}
+		for _, k := range []string{"a", "b", "c"} {
+			others = append(others, Op{K: "set", Key: k, Dur: "tiny"}, Op{K: "update", Key: k, Dur: "tiny"})
 		}
 		for _, cf := range cfgs {
 			for i := 0; i < nRand; i++ {
